@@ -55,6 +55,8 @@ PROP = [  # (subject fragment, property)
  ("write-mode gd_seek must not create", "C11"), ("_GD_CopyScalars must check scalar codes", "C15"),
  ("must not move the I/O pointer of a field open for writing", "C17"), ("must resolve scalar parameters before using them", "C16"),
  ("must leave the I/O pointer of a field open for writing where it was", "C17"), ("SIE write beyond the end must pad the gap", "C03"), ("must not empty the data file when one frame exceeds", "C13"),
+ ("parent/alias code must test the /PROTECT level", "C11"), ("format-protected sub-fragment of the removed fragment", "C11"),
+ ("must not rewrite a client that lives in a format-protected", "C11"),
  ("inserting a parsed subfield must invalidate", "C15"), ("only the first RAW field of a fragment", "C18"),
  ("_GD_Flush must stop at the first error", "C05"), ("SetPrefix and SetSuffix must keep the cached affixes", "C20"),
  ("failing BZ2_bzRead must invalidate", "C02"), ("LINCOM with real scalars read as a complex type", "C01"), ("gd_add must record the sample size", "C03"),
